@@ -503,6 +503,8 @@ def compare(interp, op, a, b, st, node):
                 res = False
         elif a.has_const and b.has_const and isinstance(a.const, bool) and isinstance(b.const, bool):
             res = a.const is b.const
+            if "numpy-scalar" in (a.labels | b.labels):
+                res = False  # numpy.True_ is not the object True
         elif b.has_const and isinstance(b.const, bool) and a.kind not in ("unk", "bool", "maybe", "arr"):
             res = False
         if res is not None:
